@@ -50,7 +50,7 @@ def dump_auto(cm):
 
 def record(src: str, alpha_spec=ALPHA_SPEC):
     from prosemirror.model import Schema
-    rec = {"src": src, "parsed": False, "ast": exprparse.parse(""), "built": False, "exc": "", "auto": [], "inline": False}
+    rec = {"src": src, "chars": exprparse.chars(src), "parsed": False, "ast": exprparse.parse(""), "built": False, "exc": "", "auto": [], "inline": False}
     try:
         rec["ast"] = exprparse.parse(src)
         rec["parsed"] = True
@@ -127,7 +127,8 @@ def run_batch(recs, alpha_js, alphabet, stats, what):
     nsh = max(1, min(64, len(recs) // 100))
     for k in range(nsh):
         part = recs[k::nsh]          # interleaved: expensive expressions are spread over the shards
-        shards.append((k, {"PMV_INPUT": tlc.write_input({"schema": alpha_js, "alphabet": alphabet, "exprs": part}, "prod")}))
+        words = exprparse.words_table([rc["src"] for rc in part], alphabet)
+        shards.append((k, {"PMV_INPUT": tlc.write_input({"schema": alpha_js, "alphabet": alphabet, "exprs": part, "words": words}, "prod")}))
     from concurrent.futures import ThreadPoolExecutor
 
     def one(sh):
@@ -147,6 +148,9 @@ def run_batch(recs, alpha_js, alphabet, stats, what):
             inv, body = m.group(1), m.group(2)
             ks = re.findall(r"/\\ k = (\d+)", body)
             ws = re.findall(r"/\\ w = (<<.*?>>)", body)
+            if ks and inv == "ParsersAgree":
+                raise core.MachineryError("the harness' parser and the specification's recogniser (PMExprSyntax) disagree on "
+                                          + repr(recs[base + (int(ks[-1]) - 1) * nsh]["src"]))
             if ks:
                 bad.append((base + (int(ks[-1]) - 1) * nsh, inv, ws[-1] if ws else ""))
         other = [e for e in r.errors if "Invariant" not in e and "behavior up to this point" not in e]
@@ -165,7 +169,8 @@ def run(tier: str, seed: int, t0: float) -> int:
     size = 4 if not thorough else 5
     srcs = []
     for atoms, sz in ((["a", "b", "g"], size), (["a", "c", "i"], min(size, 3)), (["a", "c"], size)):
-        path = tlc.write_input({"schema": alpha_js, "atoms": atoms, "ranges": [[2, 2], [1, -1], [0, 2], [1, 3]], "maxSize": sz}, "exprgen")
+        path = tlc.write_input({"schema": alpha_js, "atoms": atoms, "ranges": [[2, 2], [1, -1], [0, 2], [1, 3]], "maxSize": sz,
+                                "words": exprparse.words_table(atoms)}, "exprgen")
         r = tlc.run_tlc("MC_ExprGen", "MC_ExprGen.cfg", env={"PMV_INPUT": path}, workers=1, heap="4g")
         if not r.ok:
             raise core.MachineryError("MC_ExprGen: " + "; ".join(r.errors[:3]) + r.stdout[-1500:])
@@ -237,7 +242,8 @@ def run(tier: str, seed: int, t0: float) -> int:
                        rule="content expressions: every syntax tree up to the size bound over three atom sets (TLC-enumerated), random "
                             "larger ones, all token strings up to length 3/4 over 16 tokens plus random longer strings and hand-made "
                             "malformed ones, expressions of bundled schemas; each decided by product exploration (unbounded sequences)",
-                       assumptions=["syntax acceptance oracle is the harness' independent parser (print/parse round-trip checked)",
+                       assumptions=["expression strings are ASCII; the word -> name table handed to the recogniser PMExprSyntax is a pure encoding (lexing and "
+                                    "parsing are done in TLA+; the harness' own parser is cross-checked against it on every string: ParsersAgree)",
                                     "{n,m} with m < n is outside the property's expression language (skipped, counted)",
                                     "TLC/SANY, Json module"])
 
